@@ -61,6 +61,12 @@ func TestC18_LicenceEscrowAndVesting(t *testing.T) {
 		if res, err := c.Block(c.MustSign(poor, banktypes.NewMsgSend(poor.Addr, rich.Addr, sdk.NewCoins(sdk.NewCoin(chain.BondDenom, sdkmath.NewInt(999_000_000)))))); err != nil || res.TxResults[0].Code != 0 {
 			t.Fatalf("drain: %v", err)
 		}
+		// "locked": a funder whose whole balance is vesting-locked until far in the future - it HAS the coins, but the
+		// bank refuses to move them
+		locked := chain.MkActor(salt + "/locked-funder")
+		if res, err := c.Block(c.MustSign(rich, vestingtypes.NewMsgCreateVestingAccount(rich.Addr, locked.Addr, sdk.NewCoins(sdk.NewCoin(chain.BondDenom, sdkmath.NewInt(500_000_000))), chain.BlockTime(c.H).Unix()+10*365*86400, true))); err != nil || res.TxResults[0].Code != 0 {
+			t.Fatalf("locked funder: %v %v", err, res)
+		}
 		clients := []chain.Actor{chain.MkActor(salt + "/cl0"), chain.MkActor(salt + "/cl1"), chain.MkActor(salt + "/cl2"), chain.MkActor(salt + "/cl3"), chain.MkActor(salt + "/cl4"), chain.MkActor(salt + "/cl5"), stranger}
 		pending := map[string]*c18Lic{}
 		active := map[string]*c18Active{}
@@ -202,8 +208,12 @@ func TestC18_LicenceEscrowAndVesting(t *testing.T) {
 				var f []sdk.AccAddress
 				if on {
 					f = []sdk.AccAddress{poor.Addr, rich.Addr}
-					if rapid.Bool().Draw(t, "onlyPoor") {
+					switch rapid.IntRange(0, 3).Draw(t, "funderSet") {
+					case 0:
 						f = []sdk.AccAddress{poor.Addr}
+					case 1:
+						// a liquid funder followed by one whose coins are locked
+						f = []sdk.AccAddress{rich.Addr, locked.Addr}
 					}
 				}
 				if err := c.App.PalomaKeeper.SetLightNodeClientFunders(ctx, f); err != nil {
@@ -287,6 +297,9 @@ func TestC18_LicenceEscrowAndVesting(t *testing.T) {
 				bal := poorBefore
 				if f.Equals(rich.Addr) {
 					bal = richBefore
+				}
+				if f.Equals(locked.Addr) {
+					continue // its coins cannot be moved: it can never fund a sale
 				}
 				if bal.Amount.GTE(need) {
 					canFund = true
@@ -393,10 +406,10 @@ func TestC18_LicenceEscrowAndVesting(t *testing.T) {
 				defer func() { forceRightContract = false }()
 				attestedSale(t)
 			},
-			"attestedSale":   attestedSale,
-			"attestedSale2":  attestedSale,
-			"activate":       activate,
-			"activate2":      activate,
+			"attestedSale":  attestedSale,
+			"attestedSale2": attestedSale,
+			"activate":      activate,
+			"activate2":     activate,
 			"auth": func(t *rapid.T) {
 				cl := rapid.SampledFrom(clients).Draw(t, "client")
 				ok, _ := deliver(t, cl, &palomatypes.MsgAuthLightNodeClient{Metadata: chain.MD(cl)})
